@@ -353,12 +353,19 @@ impl Prop for C20 {
     fn shrink_iters(&self) -> u32 {
         40
     }
+    fn timeout(&self, tier: Tier) -> std::time::Duration {
+        // process spawns dominate; on a machine busy with other work the quick tier has been seen to need > 900 s
+        match tier {
+            Tier::Quick => std::time::Duration::from_secs(2700),
+            Tier::Thorough => std::time::Duration::from_secs(6 * 3600),
+        }
+    }
     fn workers(&self) -> usize {
         // each case spawns multi-threaded child processes; keep the machine oversubscribed but not thrashing
         4
     }
     fn rule(&self) -> String {
-        "Case = 2..16 per-thread workloads of 5..40 steps drawn by proptest from: load+call functions of three chained frozen modules (recursion, records, enums, typed defs with runtime type matchers, comprehensions, lambdas/partial, string formatting, json, hash()); host-side encode/hash/equality of shared frozen values; build+freeze+read+drop of a private module; creating a frozen module that references the shared ones and handing it to whichever thread drops it; dropping heaps created by other threads; a drop storm at the end of every concurrent process (20 000 rounds in quick: 2-4 frozen heaps built back to back on one thread, so that they share arena chunks, released at the same instant by persistent dropper threads); first use of Globals::standard()/extended_internal() and of the harness globals. Every case runs in fresh processes: one reference process executing each workload alone, and three concurrent processes (start barrier / staggered starts with generated spin and yield points; 16 extra spinning threads oversubscribing the 16 cores; the shared modules built concurrently by three threads). Oracle: every thread's transcript equals the transcript of the same workload run alone; a child that dies is a violation; freed arenas are poisoned (hook H2). evaluations = thread transcripts compared. Non-trivial = >= 2 threads touch the shared frozen heaps while at least one thread creates or drops a heap; distinct = distinct workload set.".into()
+        "Case = 2..16 per-thread workloads of 5..40 steps drawn by proptest from: load+call functions of three chained frozen modules (recursion, records, enums, typed defs with runtime type matchers, comprehensions, lambdas/partial, string formatting, json, hash()); host-side encode/hash/equality of shared frozen values; build+freeze+read+drop of a private module; creating a frozen module that references the shared ones and handing it to whichever thread drops it; dropping heaps created by other threads; a drop storm at the end of every concurrent process (10 000 rounds in quick: 2-4 frozen heaps built back to back on one thread, so that they share arena chunks, released at the same instant by persistent dropper threads); first use of Globals::standard()/extended_internal() and of the harness globals. Every case runs in fresh processes: one reference process executing each workload alone, and three concurrent processes (start barrier / staggered starts with generated spin and yield points; 16 extra spinning threads oversubscribing the 16 cores; the shared modules built concurrently by three threads). Oracle: every thread's transcript equals the transcript of the same workload run alone; a child that dies is a violation; freed arenas are poisoned (hook H2). evaluations = thread transcripts compared. Non-trivial = >= 2 threads touch the shared frozen heaps while at least one thread creates or drops a heap; distinct = distinct workload set.".into()
     }
     fn assumptions(&self) -> Vec<String> {
         vec!["the harness does not own the OS schedule: randomised barriers, staggered starts, yields and over-subscription raise the chance of exposing a race but a race that needs a specific instruction interleaving can stay hidden".into()]
@@ -374,7 +381,7 @@ impl Prop for C20 {
             workloads.push((0..n).map(|_| (ch.below(8), ch.below(200))).collect());
         }
         let yields: Vec<u32> = (0..nthreads).map(|_| ch.raw() % 1000).collect();
-        let storm_rounds: u32 = if ctx.tier == Tier::Quick { 20_000 } else { 60_000 };
+        let storm_rounds: u32 = if ctx.tier == Tier::Quick { 10_000 } else { 60_000 };
         let case = json!({"workloads": workloads.iter().map(|w| w.iter().map(|s| json!([s.0, s.1])).collect::<Vec<_>>()).collect::<Vec<_>>(), "yields": yields, "storm_rounds": storm_rounds});
         let dir = format!("{WORK_DIR}/C20");
         let _ = std::fs::create_dir_all(&dir);
